@@ -102,6 +102,39 @@ pub fn run(seed: u64, thorough: bool) {
             }
         }
     }
+    // the parameter list exactly AT the configured limits (largest allowed height, capped at H10, and
+    // smallest allowed Winternitz parameter on every level) with the largest hash: the signature is
+    // the longest this build has to hold.  Implementation-only (too costly for the Gallina SHA-256).
+    if max_levels <= 4 {
+        let w_code = |w: usize| -> u32 { match w { 1 => 1, 2 => 2, 4 => 3, _ => 4 } };
+        let h_code = |h: usize| -> u32 { if h >= 10 { 6 } else { 5 } };
+        let levels: Vec<(u32, u32)> = (0..max_levels).map(|i| (w_code(ws[i]), h_code(heights[i]))).collect();
+        let shape = Shape { hash: "sha256_256", levels: levels.clone() };
+        let sd = vec![0x5au8; 32];
+        let r = keygen("sha256_256", &levels, &sd);
+        let mut ok = false;
+        let mut detail = String::from(r.class());
+        if let Out::Ok((sk, pk)) = &r {
+            let total = 1u64 << shape.total_height();
+            ok = true;
+            for c in [0u64, total - 1] {
+                let blob = set_counter(sk, c);
+                let (out, calls) = sign("sha256_256", &blob, b"at the limits", true, None);
+                let lt = lifetime("sha256_256", &blob);
+                let verified = match &out {
+                    Out::Ok(sig) => verify3("sha256_256", b"at the limits", sig, pk).iter().all(|x| *x == Out::Ok(())),
+                    _ => false,
+                };
+                if !(verified && calls.len() == 1 && lt == Out::Ok(total - c)) {
+                    ok = false;
+                    detail = format!("c={} sign={} lifetime={:?} verified={}", c, out.class(), lt, verified);
+                }
+            }
+        }
+        Line::new("oracle").str("name", "key_at_the_limits_fully_usable").raw("ok", if ok { "true" } else { "false" })
+            .str("hash", "sha256_256").raw("variants", &shape.variants_json()).str("detail", &detail)
+            .num("max_levels", max_levels as u64).emit();
+    }
     // a key file written by a build with wider limits: must be refused on load, without a callback
     for params in [[0x13u8, 0x13, 0x13, 0x13, 0x13, 0x13, 0x13, 0x13], [0x63, 0xff, 0xff, 0xff, 0xff, 0xff, 0xff, 0xff],
                    [0x11, 0xff, 0xff, 0xff, 0xff, 0xff, 0xff, 0xff], [0x13, 0x53, 0x93, 0xff, 0xff, 0xff, 0xff, 0xff]] {
